@@ -201,6 +201,12 @@ def rule_inplace_mark(ctx, rid, F):
             if lhs.get("k") == "member" and lhs.get("n") == "m_n":
                 marks.append(e)
     if not marks:
+        tests = [e for _, _, e in F.all_elements() if e.get("k") == "bin" and e.get("op") == "&" and
+                 F.strip(e["lhs"]).get("k") == "member" and F.strip(e["lhs"]).get("n") == "m_n"]
+        if tests and Q.calls_in(F, FREE):
+            ctx.bad(rid, F, "the free loop tests the mark bit of a retired cell but no store ever sets it: every element is freed "
+                    "regardless of the hazard pointers", tests[-1], sig="mark-never-set")
+            return
         ctx.broken("inplace_scan: no mark store (m_n |= 1) found")
     for mk in marks:
         site = mk["_site"]
@@ -853,3 +859,358 @@ def rule_storage_bounds(ctx, rid):
             sides = [cs.strip(r["lhs"]), cs.strip(r["rhs"])]
             ok = any(s.get("k") == "sizeof" for s in sides) and any(s.get("k") == "ref" and s.get("dk") == "parm" for s in sides)
     ctx.check(ok, rid, cs, "calc_array_size is sizeof(guard) * capacity", rs[0] if rs else None, sig="calc-size")
+
+
+# ---------------------------------------------------------------------------
+# DHP specific
+# ---------------------------------------------------------------------------
+def _const_of(F, n):
+    """compile-time integer value of an expression (clang's constant evaluator), looking through wrappers"""
+    for _ in range(12):
+        n = F.deref(n)
+        if not isinstance(n, dict):
+            return None
+        if "cv" in n:
+            return n["cv"]
+        if n.get("k") in ("w", "defarg", "cast"):
+            n = n["sub"]
+            continue
+        return None
+    return None
+
+
+def rule_dhp_scan_coverage(ctx, rid, reason):
+    """smr::scan copies the hazards of the initial array (array_, initial_capacity_)
+    and of every extension block (extended_list_ -> next_block_ -> null, block size =
+    the size hp_allocator::alloc creates and links) of every owned record"""
+    S = ctx.need("cds::gc::dhp::smr::scan")[0]
+    CH = ctx.need("cds::gc::dhp::(anon)::copy_hazards")[0]
+    AL = ctx.need("cds::gc::dhp::hp_allocator::alloc")[0]
+    cfg = cfg_of(S)
+    calls = Q.calls_in(S, r"copy_hazards$")
+    init_call = ext_call = None
+    for c in calls:
+        a = c.get("args", [])
+        if len(a) != 3:
+            continue
+        a1, a2 = S.strip(a[1]), S.strip(a[2])
+        if a1.get("k") == "member" and a1.get("n") == "array_":
+            init_call = c
+            ok = a2.get("k") == "member" and a2.get("n") == "initial_capacity_" and \
+                S.text(a1["base"]) == S.text(a2["base"])
+            ctx.check(ok, rid, S, "initial hazard array is copied with its full initial capacity", c,
+                      detail="size argument: %s. %s" % (S.text(a2), reason), sig="initial-array-size")
+        elif a1.get("k") == "call" and a1.get("q", "").endswith("guard_block::first"):
+            ext_call = c
+            # size constant equals what hp_allocator::alloc allocates and links
+            want = set()
+            for _, _, e in AL.all_elements():
+                if e.get("k") == "new" and e.get("array") and "asize" in e:
+                    v = _const_of(AL, e["asize"])
+                    if v is not None:
+                        want.add(v)
+            have = _const_of(S, a[2])
+            ctx.check(bool(want) and have in want, rid, S,
+                      "extension blocks are copied with the block size hp_allocator::alloc() creates", c,
+                      detail="copy size %s, allocated %s. %s" % (have, sorted(want), reason), sig="ext-block-size")
+            # the block passed is the extension-list cursor
+            lp = Q.innermost_loop_of(S, c["_site"][0])
+            ctx.check(lp is not None, rid, S, "extension blocks are copied in a loop over the extension list", c, sig="ext-loop")
+    ctx.check(init_call is not None, rid, S, "scan copies the hazards of the initial guard array", None, detail=reason, sig="has-initial")
+    ctx.check(ext_call is not None, rid, S, "scan copies the hazards of the extension blocks", None, detail=reason, sig="has-ext")
+    # guards of both copies: only cursor / owner filters inside the record loop
+    outer = None
+    for c in [x for x in (init_call, ext_call) if x]:
+        for h, body in cfg.loops().items():
+            if c["_site"][0] in body and (outer is None or len(body) > len(outer[1])):
+                outer = (h, body)
+    for c in [x for x in (init_call, ext_call) if x]:
+        for cond, outcome, text, b in Q.guard_conditions(S, c["_site"]):
+            if outer and b not in outer[1]:
+                continue
+            lab = classify_filter(S, cond, outcome, text)
+            ctx.check(lab is not None, rid, S, "hazard copy is filtered only by cursor/owner conditions: %s is %s" % (text, outcome), c,
+                      detail="unexpected filter. " + reason, sig="filter:%s" % (lab or "unexpected"))
+    if outer:
+        for rd in Q.calls_in(S, r"retire_data$"):
+            ctx.check(cfg.block_dominates(outer[0], rd["_site"][0]) and rd["_site"][0] not in outer[1], rid, S,
+                      "retire_data runs only after the hazard collection loop", rd, sig="collect-before-free")
+    rule_list_traversal(ctx, rid, S, "thread_list_", "next_", reason)
+    # extension list traversal: cursor from extended_list_.load(), advance next_block_
+    found = False
+    for h, body in cfg.loops().items():
+        t = S.blocks[h].term
+        c = S.strip(t["cond"]) if t and t.get("cond") else None
+        if not c or c.get("k") != "ref":
+            continue
+        var = c["d"]
+        ds = rdefs(S).all_defs(var)
+        ini = [d for d in ds if d.site[0] not in body and d.kind in ("init", "assign")]
+        stp = [d for d in ds if d.site[0] in body and d.kind in ("init", "assign")]
+        for d in ini:
+            r = S.strip(d.rhs)
+            if r.get("k") == "call" and atomic_op(r) == "load" and S.strip(r["obj"]).get("n") == "extended_list_":
+                found = True
+                for sd in stp:
+                    rr = roots(S, sd.rhs, sd.site)
+                    ctx.check(any(x[0] == "member" and x[2] == "next_block_" for x in rr), rid, S,
+                              "extension cursor advances along next_block_", sd.node, sig="ext-advance")
+                ctx.check(len(stp) >= 1, rid, S, "extension list loop advances", S.blocks[h].term, sig="ext-advance-present")
+    ctx.check(found, rid, S, "scan walks the extension list from extended_list_", None, detail=reason, sig="ext-list-loop")
+    # copy_hazards: [arr, arr+size) step 1, every non-null slot pushed
+    reads = Q.calls_in(CH, r"common::guard::get$")
+    ctx.check(len(reads) == 1, rid, CH, "copy_hazards reads each slot", reads[0] if reads else None, sig="ch-read")
+    for rd in reads:
+        lp = Q.innermost_loop_of(CH, rd["_site"][0])
+        if not lp:
+            ctx.bad(rid, CH, "slot read outside loop", rd)
+            continue
+        h, body = lp
+        cond = CH.strip(CH.blocks[h].term["cond"])
+        ok = cond.get("k") == "bin" and cond["op"] in ("!=", "<")
+        var = CH.strip(cond["lhs"]).get("d") if ok else None
+        endv = CH.strip(cond["rhs"]) if ok else None
+        endok = False
+        if ok and endv.get("k") == "ref":
+            d = _single_def_rhs(CH, endv["d"])
+            if d is not None:
+                r = CH.strip(d.rhs)
+                if r.get("k") == "bin" and r["op"] == "+":
+                    l, rr = CH.strip(r["lhs"]), CH.strip(r["rhs"])
+                    ids = {x.get("d") for x in (l, rr) if x.get("k") == "ref"}
+                    endok = ids == {CH.params[1]["d"], CH.params[2]["d"]}
+        ctx.check(endok, rid, CH, "copy_hazards covers [arr, arr+size)", CH.blocks[h].term, sig="ch-range")
+        upd = [d for d in rdefs(CH).all_defs(var) if d.kind == "update"] if var else []
+        ctx.check(len(upd) == 1 and upd[0].node.get("op") == "++", rid, CH, "copy_hazards advances one slot at a time",
+                  upd[0].node if upd else None, sig="ch-step")
+    pbs = Q.calls_in(CH, r"vector::push_back$")
+    for pb in pbs:
+        gs = [(t, o) for (c, o, t, b) in Q.guard_conditions(CH, pb["_site"])]
+        extra = [g for g in gs if not (g[1] and (g[0] in ("hp",) or "!=" in g[0] or g[0].strip("()") == "hp"))]
+        ctx.check(len(gs) <= 2, rid, CH, "a slot value is collected whenever it is non-null", pb,
+                  detail="guards: %s" % gs, sig="ch-push")
+    ctx.check(len(pbs) == 1, rid, CH, "copy_hazards collects slot values", None, sig="ch-has-push")
+    # hp_allocator::alloc links exactly the block's guards: p .. p + N - 1
+    news = [e for _, _, e in AL.all_elements() if e.get("k") == "new" and e.get("array") and "asize" in e]
+    sizes = {_const_of(AL, e["asize"]) for e in news}
+    link_ok = False
+    for _, _, e in AL.all_elements():
+        if e.get("k") == "decl":
+            for v in e["vars"]:
+                if v["n"] and "init" in v:
+                    r = AL.strip(v["init"])
+                    if r.get("k") == "bin" and r["op"] == "-" and _const_of(AL, r["rhs"]) == 1:
+                        l = AL.strip(r["lhs"])
+                        if l.get("k") == "bin" and l["op"] == "+" and _const_of(AL, l["rhs"]) in sizes:
+                            link_ok = True
+    ctx.check(link_ok and len(sizes) == 1, rid, AL, "hp_allocator::alloc links all guards of the block it allocated", news[0] if news else None,
+              sig="alloc-link")
+
+
+def rule_extend_publication(ctx, rid, F, reason):
+    """thread_hp_storage::extend: new block linked to the old list head, then
+    published in extended_list_, then its guards are handed out"""
+    ps = PathSim(F, bound=64).run()
+    n = 0
+    for p in ps:
+        if p.outcome != "return":
+            continue
+        n += 1
+        ev = p.events
+        link = _idx(ev, lambda e: e.kind == "store" and sv_field_path(e.obj)[-1:] == ["next_block_"])
+        pub = _idx(ev, lambda e: e.kind == "call" and atomic_op(e) == "store" and sv_field_path(e.obj)[-1:] == ["extended_list_"])
+        use = _idx(ev, lambda e: e.kind == "store" and sv_field_path(e.obj)[-1:] == ["free_head_"])
+        ok = link and pub and use and link[0] < pub[0] < use[0]
+        ctx.check(bool(ok), rid, F, "extension block: next_block_ linked, then published in extended_list_, then used for guards",
+                  ev[pub[0]].node if pub else None, detail="order link@%s publish@%s use@%s. %s" % (link, pub, use, reason), sig="extend-order")
+        if ok:
+            blk = ev[pub[0]].args[0]
+            ctx.check(strip_sv(ev[link[0]].obj) == blk, rid, F, "the published block is the one that was linked", ev[pub[0]].node, sig="extend-same-block")
+            old = ev[link[0]].val
+            isload = any(e.kind == "call" and atomic_op(e) == "load" and e.val == old and sv_field_path(e.obj)[-1:] == ["extended_list_"] for e in ev)
+            ctx.check(isload, rid, F, "the new block's next_block_ is the previous list head (no block is dropped from the scan list)",
+                      ev[link[0]].node, sig="extend-keeps-old")
+            src = [e for e in ev if e.kind == "call" and e.val == ev[use[0]].val]
+            ctx.check(strip_sv(ev[use[0]].val) == blk or (src and src[0].obj == blk), rid, F,
+                      "guards handed out come from the published block", ev[use[0]].node, sig="extend-use")
+    if n == 0:
+        ctx.bad(rid, F, "extend() has no returning path", None)
+
+
+def rule_scan_entry_dhp(ctx, rid, S):
+    """DHP scan(): sync() before the first read of another thread's hazards"""
+    sy = Q.calls_in(S, r"thread_data::sync$")
+    rd = Q.calls_in(S, r"copy_hazards$")
+    cfg = cfg_of(S)
+    ok = bool(sy) and bool(rd) and all(cfg.site_dominates(sy[0]["_site"], r["_site"]) for r in rd)
+    ctx.check(ok, rid, S, "scan() issues sync() before reading hazard slots", sy[0] if sy else None, sig="sync-before-scan")
+
+
+def rule_dhp_block_walk(ctx, rid):
+    """DHP scan: retire_data is applied to every block from list_head_ to the
+    block that was current when the scan began (inclusive), with the partial
+    size for that last block and the full capacity otherwise"""
+    S = ctx.need("cds::gc::dhp::smr::scan")[0]
+    rds = Q.calls_in(S, r"retire_data$")
+    ctx.check(len(rds) == 1, rid, S, "scan applies retire_data to retired blocks", rds[0] if rds else None, sig="has-retire-data")
+    if not rds:
+        return
+    rd = rds[0]
+    lp = Q.innermost_loop_of(S, rd["_site"][0])
+    if not lp:
+        ctx.bad(rid, S, "retire_data outside the block loop", rd)
+        return
+    h, body = lp
+    paths = Q.iteration_paths(S, h, body)
+    ctx.paths += len(paths)
+    seen_full = seen_part = False
+    for p in paths:
+        calls = Q.path_calls(p, r"retire_data$")
+        if p.outcome in ("back", "leave") and len(p.blocks) > 1:
+            ctx.check(len(calls) == 1, rid, S, "every visited retired block is processed exactly once per scan", rd,
+                      detail="path %s" % (p.blocks,), sig="block-once")
+        for c in calls:
+            blk, size = c.args[2], c.args[3]
+            ctx.check(isinstance(blk, tuple) and blk[0] == "phi", rid, S, "retire_data receives the loop's current block", c.node, sig="block-arg")
+            # which outcome of 'block == last_block' holds on this path
+            is_end = None
+            for atom, tv, ev in Q.cond_atoms(p):
+                if isinstance(atom, tuple) and atom[0] == "op" and atom[1] == "==" and blk in (atom[2], atom[3]):
+                    is_end = tv
+            if is_end is True:
+                seen_part = True
+                ok = isinstance(size, tuple) and size[0] == "op" and size[1] == "-"
+                ctx.check(ok, rid, S, "the block that was current at scan start is processed up to the saved cell", c.node,
+                          detail="size value %r" % (size,), sig="partial-size")
+                ctx.check(p.outcome == "leave", rid, S, "the walk stops after the last used block", c.node, sig="stop-after-last")
+            elif is_end is False:
+                seen_full = True
+                ok = Q.is_const(size)
+                ctx.check(ok, rid, S, "earlier blocks are processed with the full block capacity", c.node, sig="full-size")
+                ctx.check(p.outcome == "back", rid, S, "the walk continues to the next block", c.node, sig="continue")
+    ctx.check(seen_full and seen_part, rid, S, "both the full-block and the last-block case are handled", rd, sig="both-cases")
+    # cursor starts at list_head_ and advances with next_
+    t = S.blocks[h].term
+    c = S.strip(t["cond"]) if t and t.get("cond") else None
+    ok = False
+    if c and c.get("k") == "ref":
+        ds = rdefs(S).all_defs(c["d"])
+        ini = [d for d in ds if d.site[0] not in body and d.kind in ("init", "assign")]
+        stp = [d for d in ds if d.site[0] in body and d.kind in ("init", "assign")]
+        ok = any(any(x[0] == "member" and x[2] == "list_head_" for x in roots(S, d.rhs, d.site)) for d in ini) and \
+            all(any(x[0] == "member" and x[2] == "next_" for x in roots(S, d.rhs, d.site)) for d in stp) and bool(stp)
+    ctx.check(ok, rid, S, "the block walk starts at list_head_ and follows next_", t, sig="block-walk")
+
+
+def rule_list_traversal_for(ctx, rid, F, reason):
+    """destructor record loop: starts from the saved thread_list_ head, advances with next_ read before the record is destroyed"""
+    cfg = cfg_of(F)
+    destroys = Q.calls_in(F, r"::destroy_thread_data$")
+    if not destroys:
+        return
+    lp = Q.innermost_loop_of(F, destroys[0]["_site"][0])
+    if not lp:
+        return
+    h, body = lp
+    t = F.blocks[h].term
+    c = F.strip(t["cond"]) if t and t.get("cond") else None
+    ok = False
+    adv_ok = False
+    if c and c.get("k") == "ref":
+        var = c["d"]
+        ds = rdefs(F).all_defs(var)
+        ini = [d for d in ds if d.site[0] not in body and d.kind in ("init", "assign")]
+        for d in ini:
+            rr = roots(F, d.rhs, d.site)
+            if any(x[0] == "call" and x[1].endswith("::load") for x in rr):
+                ok = True
+        # next pointer is read from the record before destroy_thread_data
+        for _, _, e in F.all_elements():
+            if e.get("k") == "bin" and e.get("op") == "=" and e["_site"][0] in body:
+                r = F.strip(e["rhs"])
+                if r.get("k") == "member" and r.get("n") == "next_":
+                    if cfg.site_dominates(e["_site"], destroys[0]["_site"]):
+                        adv_ok = True
+    ctx.check(ok, rid, F, "the destructor walks the record list from thread_list_", t, detail=reason, sig="dtor-list")
+    ctx.check(adv_ok, rid, F, "the next record is read before the current one is destroyed", destroys[0], sig="dtor-next-before-destroy")
+
+
+def rule_move_range(ctx, rid, H, H2):
+    """help_scan copies [first, last) of the source (HP) / every block up to current_cell_ (DHP)"""
+    # HP: loop cursor from src.first() to src.last()
+    ok = False
+    for h, body in cfg_of(H).loops().items():
+        t = H.blocks[h].term
+        c = H.strip(t["cond"]) if t and t.get("cond") else None
+        if c and c.get("k") == "bin" and c["op"] == "!=":
+            l = roots(H, c["lhs"], (h, 0))
+            r = roots(H, c["rhs"], (h, 0), expand_loop_vars=True)
+            lf = roots(H, c["lhs"], (h, 0), expand_loop_vars=True)
+            if any(x[0] == "call" and x[1].endswith("retired_array::last") for x in r) and \
+                    any(x[0] == "call" and x[1].endswith("retired_array::first") for x in lf):
+                ok = True
+    ctx.check(ok, rid, H, "HP help_scan moves the whole range [first(), last()) of the adopted array", None, sig="move-range-hp")
+    # DHP: inner loop p from block->first() to (block == current ? current_cell_ : block->last())
+    ok2 = False
+    for h, body in cfg_of(H2).loops().items():
+        t = H2.blocks[h].term
+        c = H2.strip(t["cond"]) if t and t.get("cond") else None
+        if c and c.get("k") == "bin" and c["op"] == "!=":
+            r = roots(H2, c["rhs"], (h, 0), expand_loop_vars=True)
+            lf = roots(H2, c["lhs"], (h, 0), expand_loop_vars=True)
+            names = set()
+            for x in r:
+                if x[0] == "member":
+                    names.add(x[2])
+                if x[0] == "call":
+                    names.add(x[1].split("::")[-1])
+            if {"current_cell_", "last"} <= names and any(x[0] == "call" and x[1].endswith("retired_block::first") for x in lf):
+                ok2 = True
+    ctx.check(ok2, rid, H2, "DHP help_scan moves every block up to the current cell", None, sig="move-range-dhp")
+
+
+def rule_push_store(ctx, rid):
+    """retired_array::push always stores the element before reporting fullness (HP and DHP)"""
+    for q in ("cds::gc::hp::details::retired_array::push", "cds::gc::dhp::retired_array::push"):
+        F = ctx.need(q)[0]
+        ps = PathSim(F, bound=64).run()
+        for p in ps:
+            if p.outcome != "return":
+                continue
+            stores = [e for e in p.events if (e.kind == "call" and e.q and e.q.endswith("retired_ptr::operator=")) or
+                      (e.kind == "store" and e.obj and e.obj[0] == "deref")]
+            ctx.check(len(stores) == 1, rid, F, "push() stores the element on every path", stores[0].node if stores else None,
+                      sig="push-stores")
+            if stores:
+                a = stores[0].args[0] if stores[0].kind == "call" else stores[0].val
+                ctx.check(strip_sv(a) == ("p", F.params[0]["d"], F.params[0]["n"]), rid, F, "push() stores its argument", stores[0].node,
+                          sig="push-stores-arg")
+
+
+def rule_drain_bounds(ctx, rid, F, want, reason):
+    """the drain loops of a singleton destructor run from first() to each of the
+    required ends (HP: last(); DHP: last() of every full block and current_cell_ of the block in use)"""
+    have = set()
+    starts_ok = True
+    node = None
+    for fr in Q.calls_in(F, FREE):
+        lp = Q.innermost_loop_of(F, fr["_site"][0])
+        if not lp:
+            continue
+        h, body = lp
+        t = F.blocks[h].term
+        c = F.strip(t["cond"]) if t and t.get("cond") else None
+        node = t
+        if not c or c.get("k") != "bin" or c["op"] != "!=":
+            continue
+        for x in roots(F, c["rhs"], (h, 0), expand_loop_vars=False):
+            if x[0] == "call":
+                have.add(x[1].split("::")[-1])
+            if x[0] == "member":
+                have.add(x[2])
+        lf = roots(F, c["lhs"], (h, 0), expand_loop_vars=True)
+        if not any(x[0] == "call" and x[1].split("::")[-1] == "first" for x in lf):
+            starts_ok = False
+    ctx.check(want <= have, rid, F, "destructor drain loops cover the retired storage up to %s" % sorted(want), node,
+              detail="loop ends found: %s. %s" % (sorted(have), reason), sig="drain-bounds")
+    ctx.check(starts_ok, rid, F, "destructor drain loops start at first()", node, sig="drain-start")
